@@ -145,7 +145,8 @@ PROPS = {
                 "positions, queue unchanged; non-trivial = batch >=3 with the first invalid item at position >=1, or an overflow with free capacity left",
         "assumptions": [SAMPLED, POSTGRES],
         "guards": ["accepted", "refused", "status-409", "status-413", "status-503"],
-        "parts": [{"engine": "front", "test": "TestProp_C15_Publish", "quick": 3000, "thorough": 250000}],
+        "parts": [{"engine": "front", "test": "TestProp_C15_Publish", "quick": 3000, "thorough": 250000},
+                  {"engine": "front", "test": "TestProp_C15_PolicyReload", "quick": 400, "thorough": 20000, "shards": {"quick": 4}}],
     },
     "C18": {
         "rule": "reload tier: (old, new) config pairs (new = old with 1-3 edits: route added/removed, auth kind/secret changed, pull path remapped, pull tokens "
